@@ -17,6 +17,7 @@ import (
 	"path/filepath"
 	"sort"
 	"strings"
+	"syscall"
 	"time"
 
 	"github.com/notaryproject/notation-go/dir"
@@ -36,6 +37,18 @@ var versions = []ver{
 	{"1.0.0-rc.1", 6, false}, {"1.0.0", 7, false}, {"1.0.0+build", 7, false}, {"1.0.0+zzz.9", 7, false}, {"1.0.1", 8, false}, {"1.2.0", 9, false}, {"1.9.0", 10, false}, {"1.10.0", 11, false},
 	{"2.0.0-0", 12, false}, {"2.0.0", 13, false}, {"10.0.0", 14, false},
 	{"1", -1, false}, {"v1.0.0", -1, false}, {"1.0", -1, false}, {"01.0.0", -1, false}, {"1.0.0-", -1, false}, {"latest", -1, false},
+}
+
+// scriptEmptyField: complete metadata in which ONE mandatory field is present but empty ("" / []).
+func scriptEmptyField(name, version, field string) []byte {
+	m := map[string]any{"name": name, "description": "d", "version": version, "url": "https://u", "supportedContractVersions": []string{"1.0"}, "capabilities": []string{"SIGNATURE_GENERATOR.RAW"}}
+	if _, isList := m[field].([]string); isList {
+		m[field] = []string{}
+	} else {
+		m[field] = ""
+	}
+	b, _ := json.Marshal(m)
+	return []byte("#!/bin/sh\necho '" + string(b) + "'\n")
 }
 
 func script(name, version string, bad bool) []byte {
@@ -89,7 +102,8 @@ type inst struct {
 var shapes = []string{"file", "file", "dir", "dir-nonexec", "dir-extra-before", "dir-extra-after", "dir-nonexec-extra-after", "dir-nonexec-extra-before", "dir-subdir", "dir-subdir-before",
 	"dir-subdir-samename", "dir-symlink-extra", "dir-two", "dir-two-nonexec", "dir-no-candidate", "badmeta", "misnamed", "file-nonexec", "dir-badmeta", "file-via-symlink", "file-via-symlink", "misnamed-case",
 	"dir-samename-subdir", "dir-samename-subdir-holds-candidate", "dir-candidate-symlink", "dir-extra-group-exec", "dir-single-group-exec-only",
-	"dir-extra-notation-named-before", "badmeta-trailing-output", "dir-badmeta-second-document", "misnamed-exe-suffix", "dir-misnamed-exe-suffix", "dir-dotfiles"}
+	"dir-extra-notation-named-before", "badmeta-trailing-output", "dir-badmeta-second-document", "misnamed-exe-suffix", "dir-misnamed-exe-suffix", "dir-dotfiles",
+	"badmeta-empty-field", "dir-badmeta-empty-field", "dir-special-files"}
 
 func main() {
 	r := lib.Start("C20", "exploration")
@@ -129,7 +143,15 @@ func main() {
 // the file named by the caller: a lower version is refused and the installed 1.0.0 stays; a higher one replaces it.
 func relativeSources(ctx context.Context, r *lib.Run) {
 	worker := filepath.Join(os.Getenv("VERIF_BIN"), "worker")
-	for fi, form := range []string{"./notation-foo", "./x/../notation-foo", ".//notation-foo"} {
+	type relForm struct {
+		path    string
+		relRoot bool // the plugin root is named relative to the working directory as well
+	}
+	forms := []relForm{{"./notation-foo", false}, {"./x/../notation-foo", false}, {".//notation-foo", false},
+		// paths with a directory component (the file, and the directory that holds it), and a relative plugin root
+		{"dist/v1/notation-foo", false}, {"dist/v1", false}, {"./dist/v1/", false}, {"./notation-foo", true}, {"dist/v1", true}}
+	for fi, f := range forms {
+		form := f.path
 		for _, newer := range []bool{false, true} {
 			base := lib.TempDir("c20rel")
 			root := filepath.Join(base, "plugins")
@@ -147,10 +169,16 @@ func relativeSources(ctx context.Context, r *lib.Run) {
 			os.MkdirAll(filepath.Join(rel, "x"), 0o755)
 			ver := map[bool]string{false: "0.5.0", true: "1.1.0"}[newer]
 			os.WriteFile(filepath.Join(rel, "notation-foo"), script("foo", ver, false), 0o755)
+			os.MkdirAll(filepath.Join(rel, "dist", "v1"), 0o755)
+			os.WriteFile(filepath.Join(rel, "dist", "v1", "notation-foo"), script("foo", ver, false), 0o755)
 			systemWide := filepath.Join(base, "usr-local-bin")
 			os.MkdirAll(systemWide, 0o755)
 			os.WriteFile(filepath.Join(systemWide, "notation-foo"), script("foo", "9.9.9", false), 0o755)
-			spec, _ := json.Marshal(map[string]any{"root": root, "op": "install", "path": form})
+			specRoot := root
+			if f.relRoot {
+				specRoot = "../plugins"
+			}
+			spec, _ := json.Marshal(map[string]any{"root": specRoot, "op": "install", "path": form})
 			specPath := filepath.Join(base, "spec.json")
 			os.WriteFile(specPath, spec, 0o644)
 			cmd := exec.Command(worker, "jail", specPath)
@@ -167,7 +195,7 @@ func relativeSources(ctx context.Context, r *lib.Run) {
 				os.RemoveAll(base)
 				continue
 			}
-			r.Eval(fmt.Sprintf("relative-source|%d|%v", fi, newer))
+			r.Eval(fmt.Sprintf("relative-source|%d|%v|%v", fi, newer, f.relRoot))
 			r.Event("installs-from-a-relative-source-path")
 			sig := map[string]string{"kind": "install-decision", "shape": "file-relative-path", "newer": fmt.Sprint(newer)}
 			wit := map[string]any{"path": form, "working_directory": rel, "source_version": ver, "installed": "1.0.0", "another_notation-foo_on_PATH": "9.9.9", "result": res}
@@ -298,6 +326,9 @@ func runSequence(ctx context.Context, r *lib.Run, seq int, pending *[]func()) (b
 				if shape == "misnamed" {
 					content = script("other", v.s, false)
 				}
+				if strings.HasSuffix(shape, "badmeta-empty-field") {
+					content = scriptEmptyField(name, v.s, []string{"url", "description", "supportedContractVersions", "capabilities", "url", "description"}[rng.Intn(6)])
+				}
 				mode := os.FileMode(0o755)
 				if rng.Intn(3) == 0 {
 					mode = 0o700
@@ -321,8 +352,14 @@ func runSequence(ctx context.Context, r *lib.Run, seq int, pending *[]func()) (b
 					expect[fn] = finfo{c, m & 0o755}
 				}
 				switch shape {
-				case "file", "badmeta", "misnamed", "badmeta-trailing-output":
+				case "file", "badmeta", "misnamed", "badmeta-trailing-output", "badmeta-empty-field":
 					path = exe
+				case "dir-special-files":
+					// a named pipe and a socket lie in the source directory, one sorting before and one after everything else:
+					// they are no regular files, nothing of them is installed - and nothing about them stops the installation
+					syscall.Mkfifo(filepath.Join(src, "aaa-control.fifo"), 0o644)
+					syscall.Mknod(filepath.Join(src, "zzz-agent.sock"), syscall.S_IFSOCK|0o644, 0)
+					addExtra("LICENSE", "lic", 0o644)
 				case "dir-extra-notation-named-before":
 					// library files that carry the notation- prefix and sort BEFORE the executable; nobody may execute them, so
 					// the directory still holds exactly one plugin executable
@@ -412,7 +449,7 @@ func runSequence(ctx context.Context, r *lib.Run, seq int, pending *[]func()) (b
 					os.WriteFile(filepath.Join(src, "plugin.sh"), content, 0o755)
 					usable = false
 				}
-				metaOK := shape != "badmeta" && shape != "dir-badmeta" && shape != "misnamed" && shape != "misnamed-case" && shape != "badmeta-trailing-output" && shape != "dir-badmeta-second-document" && shape != "misnamed-exe-suffix" && shape != "dir-misnamed-exe-suffix"
+				metaOK := shape != "badmeta" && shape != "dir-badmeta" && shape != "misnamed" && shape != "misnamed-case" && shape != "badmeta-trailing-output" && shape != "dir-badmeta-second-document" && shape != "misnamed-exe-suffix" && shape != "dir-misnamed-exe-suffix" && !strings.HasSuffix(shape, "badmeta-empty-field")
 				ex := model[name]
 				want, judged := usable && metaOK, true
 				why := "fresh install"
